@@ -148,6 +148,14 @@ def iter : CV → Except CE (List CV)
   | .bad | .bound _ _ => unm
   | _ => .error .typeError
 
+/-- iteration by a consumer that may stop early (a `for` clause whose body raises, `sum` meeting a non-number): the model's
+    generator object is all-or-nothing (its items, or the first exception), CPython produces the items one by one — a
+    generator that would raise later is outside the model for such consumers (`list`, `tuple`, `sorted`, `*g` consume
+    everything: exact) -/
+def iterFor : CV → Except CE (List CV)
+  | .gen (.error _) => unm
+  | v => iter v
+
 /-- `Constant`: kind and `repr` text (string literals: no escape sequences — the driver refuses those) -/
 def parseNat : Str → Option Nat
   | [] => Option.none
@@ -515,7 +523,7 @@ def callBuiltin (name : Str) (pos : List CV) (kws : List (Str × CV)) : R :=
   else if name = cs!"sum" then
     match pos with
     | [v] => do
-        let xs ← iter v
+        let xs ← iterFor v
         xs.foldlM (fun acc x => match num? acc, num? x with
           | some a, some b => .ok (.int (a + b))
           | _, _ => if isScalar x || (match x with | .list _ | .tuple _ | .dict _ _ => true | _ => false)
@@ -613,7 +621,7 @@ def sem0 : Sem CV CE where
   mkTuple := fun xs => (expand xs).map .tuple
   mkDict := mkDict
   mkSlice := .slice
-  iter := iter
+  iter := iterFor
   getIter := fun v => match v with
     | .tuple _ | .list _ | .str _ | .dict _ _ | .range _ _ | .gen _ | .undef _ => .ok v
     | .bad | .bound _ _ => unm
